@@ -680,6 +680,9 @@ def get(F):
     return _SM[k]
 
 
+from .core import fmt_t as core_fmt
+
+
 def preconditions(sm, R, rule):
     """Shared fail-closed checks on the modelling assumptions of the event skeleton."""
     c = sm.c
@@ -749,7 +752,39 @@ def preconditions(sm, R, rule):
                     R.condition("merged-retry-decision", "the request loop is left on a boolean that merges %d alternatives (%s): which error ends the attempts cannot be read off the edges" % (len(t_[1]), nd_.loc()),
                                 ("C02-R3", "C06-R1", "C06-R2", "C06-R3", "C06-R4", "C06-R5", "C14-R1"))
                     break
-    # 6. construction notes
+    # 6. the long-running loop decides on values, not on a variable that merges several decisions
+    #    (`let (params, reply) = match decision { .. }` ... `let Some(p) = params else { continue }`, or a select! whose
+    #    arms each evaluate to "reboot allowed now?"): the gates of these properties are read off the edges of the policy's
+    #    answer itself; behind a merged value the attribution is a relation between variables the path rules do not track
+    COND = {"C05": ("C05-R2", "C05-R3", "C05-R5"), "C11": ("C11-R1", "C11-R2", "C11-R3", "C11-R5"), "C12": ("C12-R4",)}
+    if rule[:3] in COND:
+        S_ = sm.S_run
+        for cx_ in S_.ctxs:
+            if cx_.depth > 1 or cx_.bv.body.get("kind") != "coroutine":
+                continue
+            bv_ = cx_.bv
+            hit_ = None
+            for sb in sorted(bv_.reach0):
+                tt = bv_.blocks[sb]["t"]
+                if tt["k"] != "switch" or len(bv_.succ[sb]) < 2:
+                    continue
+                sub = bv_.switch_subject(sb)
+                if sub is not None:
+                    term = bv_.trace_place(sub[0]) if isinstance(sub[0], dict) else None
+                    if term is not None and term[0] == "phi" and len(term[1]) >= 2 and all(a[0] == "agg" and a[1] == "adt" for a in term[1]) and len(set(a[2] for a in term[1])) >= 2:
+                        hit_ = "%s switches on a value merged from %d constructed alternatives" % (lib.loc(bv_, sb), len(term[1]))
+                else:
+                    ct = _unflip(bv_.trace_op(tt["o"]))
+                    if ct[0] == "phi" and len(ct[1]) >= 2 and sum(1 for a in ct[1] if "reboot_allowed" in core_fmt(_unflip(a))[:400]) >= 1 and len(ct[1]) >= 2 and not all("reboot_allowed" in core_fmt(_unflip(a))[:400] and _unflip(a)[0] != "phi" for a in ct[1][:1] * 0 + ct[1]) is False:
+                        pass
+                    if ct[0] == "phi" and len(ct[1]) >= 2 and any("reboot_allowed" in core_fmt(_unflip(a))[:600] for a in ct[1]):
+                        hit_ = "%s tests a boolean merged from %d alternatives (policy answers computed in different arms)" % (lib.loc(bv_, sb), len(ct[1]))
+                if hit_:
+                    break
+            if hit_:
+                R.condition("merged-decision-value", hit_, COND[rule[:3]])
+                break
+    # 7. construction notes
     for S in sm._supers.values():
         for note in S.notes:
             R.inconclusive(rule, "skeleton-note:%s" % (note[0],), str(note))
